@@ -615,7 +615,18 @@ fn cmd_run(args: &[String]) -> i32 {
         };
         let fin = exec_case(part, &fin_src, tier, true, true);
         let (msg, history, desc) = match &fin {
-            Ok(o) if o.class() == *class => (o.msg.clone(), o.trace.clone(), o.desc.clone()),
+            Ok(o) if o.class() == *class => {
+                // Keep the replay file readable: `hsim replay --trace` prints
+                // the full step log.
+                let mut h = o.trace.clone();
+                if h.len() > 200 {
+                    let tail = h.split_off(h.len() - 100);
+                    h.truncate(60);
+                    h.push(format!("... ({} lines omitted) ...", o.trace.len() - 160));
+                    h.extend(tail);
+                }
+                (o.msg.clone(), h, o.desc.clone())
+            }
             _ => (first_msg.clone(), Vec::new(), None),
         };
         let path = format!(
